@@ -193,7 +193,17 @@ def _reverse(A, f_ag, argnum, call_args, x):
     r = {}
     try:
         vjp, val = A["autograd"].make_vjp(f_ag, argnum)(*call_args)
-        r["val"] = val
+    except Skip:
+        raise
+    except Exception as e:
+        r["exc"] = "%s: %s" % (type(e).__name__, str(e)[:160])
+        return r
+    r["val"] = val
+    if _has_box(val, A):
+        r["exc"] = "primal value contains tracer objects"
+        r["box_in_primal"] = True
+        return r
+    try:
         outvs = A["vspace"](val)
         xs = A["vspace"](x)
         n = O.realify(x).size
@@ -229,6 +239,18 @@ def _forward(A, f_ag, argnum, call_args, x):
     try:
         jvp = A["autograd"].make_jvp(f_ag, argnum)(*call_args)
         xs = A["vspace"](x)
+        val0 = jvp(xs.zeros())[0]
+    except Skip:
+        raise
+    except Exception as e:
+        r["exc"] = "%s: %s" % (type(e).__name__, str(e)[:160])
+        return r
+    r["val"] = val0
+    if _has_box(val0, A):
+        r["exc"] = "primal value contains tracer objects"
+        r["box_in_primal"] = True
+        return r
+    try:
         cols = {}
         struct_bad = None
         val = None
@@ -297,9 +319,14 @@ def make_harness(spec_name, spec_fn, T, need, judge_fn, prop):
 
     def h(ch):
         k = ch.choose("point", list(range(P)))
-        case = spec_fn(ch, T.at(k))
+        Tk = T.at(k)
+        if T.cplx:
+            Tk.pattern = ch.choose("complex_operands", ["c", "cr", "rc"])
+        case = spec_fn(ch, Tk)
         if case is None:
             raise Skip("spec declined")
+        if T.cplx and Tk.pattern != "c" and len(case.ops) < 2:
+            raise Skip("operand pattern is redundant for a single operand")
         opts = argnum_options(case)
         which = ch.choose("argnum", opts)
         res = evaluate(case, which, need)
@@ -315,6 +342,12 @@ def make_harness(spec_name, spec_fn, T, need, judge_fn, prop):
 def base_features(case, which):
     f = dict(case.feat)
     f["argnum"] = "same" if which == "same" else ("joint" if len(which) > 1 else str(which[0]))
+    names = list(case.ops)
+    cx = ["c" if onp.iscomplexobj(case.ops[n]) else "r" for n in names]
+    f["ops_cplx"] = "".join(cx)
+    sel = [0] if which == "same" else list(which)
+    kinds = {cx[i] for i in sel}
+    f["arg_cplx"] = "mixed" if len(kinds) > 1 else ("complex" if "c" in kinds else "real")
     return f
 
 
